@@ -21,6 +21,7 @@ PROPERTY = {
               'text chunks are yielded as their joined lines and never packaged as code',
               'parse: tabs are expanded before the indentation is measured and before labelling (preconditions of the callees)'],
         'B': ['the real parser on random docstrings whose lines are text / source / want BY CONSTRUCTION (prose, google labels, nested indentation 0/4/8, PS1 and PS2 continuations, bare ... terminators, multi-line wants, a want followed directly by a prompt, tabs): the parts laid end to end reproduce the tab-expanded, commonly de-indented docstring line for line (blank lines at the very end are not compared), every line has the label it was built with, every part records the index of its first line; and every (doctest line + part offset) points at the docstring line that holds the first source line of that part (bounded/c08_lines.py)',
+              'the same partition check on docstrings whose first line holds a character str.splitlines() breaks at but a source file does not (form feed, vertical tab, FS/GS/RS, NEL, U+2028/9): the parts give back every source-file line once, unchanged (before fix F14 the de-indentation step turned such a character into a real line break)',
               'the real _group_labeled_lines on EVERY label sequence of up to 9 (thorough 12) lines the labeller can produce, distinct line strings, against the statement: the groups laid end to end are the labelled lines once each and in order, text groups hold only text lines, an example group is (non-empty source lines only, empty or want lines only), no source group starts with a continuation line, a run of want lines is the want of exactly one group, nothing is raised (bounded/c13_groups.py)'],
         'T': ['_complete_source (generator driving the tokenizer-based balance check): yields the line and one pair per further line it consumes',
               '_package_chunk (ast-based slicing)', 're.search spans of INDENT_RE (leading spaces of a non-blank line)'],
